@@ -507,6 +507,15 @@ def call_method(ex, base, attr, args, kwargs, st, n):
         return call_function(ex, q, args, kwargs, st, n, self_obj=base)
     if k == 'opaque' and isinstance(base.py, tuple) and base.py and base.py[0] == 'copy-of-global' and attr in ('remove', 'append', 'pop', 'insert', 'extend', 'sort', 'reverse'):
         return NONE         # mutation of a private copy of a module-level container that is only passed on opaquely
+    if k == 'recdict' and attr == 'get' and args and args[0].t is not None and args[0].t.op == 'const':
+        # d.get('key', None) on a record dict: the value when the key is present, None otherwise
+        f = ptypes.recdict_field(base.pt, base.t, args[0].t.val)
+        if f is None:
+            raise OutOfSubset('key %r is not declared for this record dict (line %d)' % (args[0].t.val, n.lineno))
+        if len(args) > 1 and args[1].pt.kind != 'none':
+            raise OutOfSubset('record dict .get with a default other than None (line %d)' % n.lineno)
+        pt = TOpt(f[1].pt)
+        return SV(pt, Ite(f[0], ptypes.opt_some(pt, f[1].t), ptypes.opt_none(pt)))
     if k == 'str':
         return strings.str_method(ex, base, attr, args, kwargs, st, n)
     if k == 'list':
